@@ -506,6 +506,7 @@ class CInterp:
             cond.a[1].k == "caug" and cond.a[1].a[0] == "-" and \
             cond.a[1].a[1].k == "name" and pp(cond.a[1].a[2]) == "1" and \
             pp(cond.a[2]) == "0" and not inc
+        header_updates = []
         if countdown:
             # for (v = n; v-- > 0; ): the body sees v = n-1, ..., 0
             v = cond.a[1].a[1].a[0]
@@ -519,6 +520,17 @@ class CInterp:
             if cond.a[1].k != "name":
                 self.err(st, "loop counter is not a plain variable")
             v = cond.a[1].a[0]
+            # for (v = a; v < b; v++, p += n, ...): the further header updates
+            # run at the end of every iteration (also after `continue`)
+            header_updates = []
+            if len(inc) > 1:
+                mine = [x for x in inc if x.k == "aug" and pp(x.a[1]) == v]
+                rest_ = [x for x in inc if x not in mine]
+                if len(mine) == 1 and all(x.k == "aug" and x.a[1].k == "name"
+                                          for x in rest_):
+                    inc = mine
+                    header_updates = rest_
+                    body = list(body) + rest_
             if not (len(inc) == 1 and inc[0].k == "aug" and inc[0].a[0] == "+" and
                     pp(inc[0].a[1]) == v and pp(inc[0].a[2]) == "1"):
                 self.err(st, f"loop `{v}` is not advanced by exactly one per iteration")
@@ -532,6 +544,7 @@ class CInterp:
             b = bound[1]
             if cond.a[0] == "<=":
                 b = b + Poly.const(1)
+        body = self._merge_continue_updates(body)
         # the counter must not be modified in the body
         assigned = self.assigned_names(body)
         if v in assigned:
@@ -562,8 +575,10 @@ class CInterp:
             if s.a[0] == "-":
                 stepv = -stepv
             # no continue/break before the update at this nesting level
-            if any(isinstance(x, X) and x.k in ("continue", "break")
-                   for x in walk(body[:i])):
+            skipping = ("break",) if any(s is h_ for h_ in header_updates) \
+                else ("continue", "break")
+            if any(isinstance(x, X) and x.k in skipping
+                   for x in self._walk_this_loop(body[:i])):
                 self.err(st, f"`continue`/`break` may skip the update of `{name}`")
             induction[name] = (i, stepv, cur)
         # havoc every other variable assigned in the body
@@ -622,6 +637,60 @@ class CInterp:
                 elif s.k == "cassign" and s.a[0].k == "name":
                     out.add(s.a[0].a[0])
         return out
+
+    @staticmethod
+    def _walk_this_loop(stmts):
+        """statements of this loop level: nested loops keep their own
+        continue/break"""
+        for s in stmts:
+            if not isinstance(s, X):
+                continue
+            yield s
+            if s.k in ("cfor", "while"):
+                continue
+            if s.k == "if":
+                for _, b in s.a[0]:
+                    yield from CInterp._walk_this_loop(b)
+                yield from CInterp._walk_this_loop(s.a[1] or [])
+            elif s.k == "block":
+                yield from CInterp._walk_this_loop(s.a[0])
+
+    @staticmethod
+    def _merge_continue_updates(body):
+        """`if (c) { U; continue; } REST; U`  ->  `if (!c) { REST }; U`
+        (U: the running-pointer updates `x += c` every iteration performs once,
+        written out on the skipping path as well)."""
+        def flat(b):
+            out = []
+            for x in b:
+                if isinstance(x, X) and x.k == "block":
+                    out.extend(flat(x.a[0]))
+                elif x is not None:
+                    out.append(x)
+            return out
+        body = flat(body)
+        for i, s_ in enumerate(body):
+            if not (isinstance(s_, X) and s_.k == "if" and len(s_.a[0]) == 1
+                    and not s_.a[1]):
+                continue
+            cond, then = s_.a[0][0]
+            then = flat(then)
+            if len(then) < 2 or then[-1].k != "continue":
+                continue
+            ups = then[:-1]
+            k_ = len(ups)
+            if not all(u.k == "aug" and u.a[1].k == "name" for u in ups):
+                continue
+            tail = body[len(body) - k_:]
+            if i >= len(body) - k_ or [pp(u) for u in ups] != [pp(u) for u in tail]:
+                continue
+            rest = body[i + 1: len(body) - k_]
+            if any(isinstance(x, X) and x.k in ("continue", "break")
+                   for x in CInterp._walk_this_loop(rest)):
+                continue
+            guarded = X("if", [(X("not", cond, line=s_.line), rest)], [], line=s_.line)
+            return body[:i] + [guarded] + tail
+        return body
 
     def assigned_names_deep(self, stmts) -> dict:
         out = {}
